@@ -1,6 +1,9 @@
 // C03: conversions are total and memory-safe on arbitrary input.
 #include "gen/conv_calls.h"
+#include "gen/conv_calls_ext.h"
+#include "gen/conv_lean.h"
 #include "gen/unit_gen.h"
+#include "gen/long_gen.h"
 
 using verif::Case;
 using ref::Units;
@@ -64,6 +67,16 @@ std::string run_all(ref::Enc from, const Units &src, unsigned route_sel, bool nu
     return std::string();
 }
 
+// The extended entry points (gen/conv_calls_ext.h) that read `from`, judged by the same rule.  `groups` selects which groups of entry points run.
+std::string run_ext(ref::Enc from, const Units &src, unsigned xsel, size_t k, size_t len, bool null_empty, unsigned groups, unsigned mode_mask, bool &heap_result, long &calls) {
+    convx::Params p; p.sel = xsel; p.k = k; p.len = len; p.null_empty = null_empty; p.groups = groups; p.mode_mask = mode_mask;
+    const convx::Judge judge = [&](const convx::Call &c) {
+        if (c.o.kind == 0 && c.o.reported_size >= 12) heap_result = true;
+        return judge03(c.o, *c.e, c.to);
+    };
+    return convx::for_each_ext(from, src, p, judge, calls);
+}
+
 std::string show_units(ref::Enc enc, const Units &u) {
     std::string s;
     char tmp[16];
@@ -79,25 +92,46 @@ int verif_case(const uint8_t *data, size_t size, Case &c) {
     ref::Enc from;
     Units src;
     const char *kind = "directed";
+    const char *size_label = nullptr;
     uint8_t first = r.u8();
     if (first == 0xFF) {               // directed: encoding byte, then 4 bytes per unit
         from = (ref::Enc)(r.u8() & 3);
         while (!r.exhausted()) src.push_back(r.bits32() & ugen::mask_of(from));
+    } else if (first == 0xFE) {        // long input: a short pattern (well-formed or garbage) repeated to an exact total length (gen/long_gen.h)
+        from = (ref::Enc)(r.u8() & 3);
+        src = ugen::long_units(r, from, kind, size_label);
     } else {
         from = (ref::Enc)(first & 3);
         src = ugen::units(r, from, kind);
     }
     unsigned route_sel = r.u8();
     bool null_empty = r.flag();
+    // trailing bytes (after the existing layout): which group of extended entry points runs, target pre-state rotation, slice for view()/aliasing sources
+    unsigned xsel = first == 0xFF ? 0 : r.u8();
+    size_t k = first == 0xFF ? (src.size() > 1 ? 1 : 0) : r.idx(src.size() + 1);
+    size_t len = first == 0xFF ? (src.size() > 2 ? src.size() - 2 : src.size() - k) : r.idx(src.size() - k + 1);
     c.label(conv::enc_name(from));
     c.label(kind);
+    if (size_label) c.label(size_label);
     if (src.empty()) c.label(null_empty ? "null-with-zero-length" : "empty");
     bool malformed = false;
-    for (const ref::Item &it : ref::decode(from, src)) if (!it.ok) malformed = true;
+    { size_t pos = 0; bool last_bad = false; for (const ref::Item &it : ref::decode(from, src)) { if (!it.ok) malformed = true; pos += it.units; last_bad = !it.ok; } if (last_bad) c.label("ends-in-cut-or-offending-unit"); }
     if (malformed) c.label("has-offending-unit");
     bool heap = false;
     long calls = 0;
-    std::string why = run_all(from, src, route_sel, null_empty, heap, nullptr, calls);
+    // inputs over 6000 units go through the lean typed call layer (outcome kind, size, terminator); shorter ones through the full judge
+    const bool lean_path = src.size() > 6000;
+    std::string why = lean_path ? lean::all_from(from, src, route_sel, calls) : run_all(from, src, route_sel, null_empty, heap, nullptr, calls);
+    if (lean_path) heap = true;
+    if (why.empty() && src.size() <= 24 && (xsel & 0x80)) why = lean::cross_check(from, src);
+    if (why.empty() && src.size() <= 70000) {
+        // directed inputs run every extended entry point in every mode; generated ones one group (all modes when short, one mode otherwise)
+        unsigned groups = first == 0xFF ? ~0u : 1u << (xsel & 7);
+        unsigned mode_mask = (first == 0xFF || src.size() <= 48) ? 7u : 1u << ((xsel >> 3) % 3);
+        static const char *const gname[8] = {"ext:into-string-with-mode", "ext:mode-omitted", "ext:c-string+operator+", "ext:verbatim/literal/path", "ext:out-of-string", "ext:latin1-out/deprecated", "ext:slice/aliasing", "ext:single-characters"};
+        c.label(first == 0xFF ? "ext:all" : gname[xsel & 7]);
+        why = run_ext(from, src, xsel >> 3, k, len, null_empty, groups, mode_mask, heap, calls);
+    }
     c.nontrivial = (src.size() >= 2 && (malformed || !strcmp(kind, "truncated"))) || heap;
     if (heap) c.label("heap-result");
     if (c.want_text) c.text = std::string("C03 ") + conv::enc_name(from) + " [" + kind + "] in=" + show_units(from, src) + (src.empty() && null_empty ? " (null pointer)" : "") + " -> " + verif::num(calls) + " conversions x modes";
@@ -126,6 +160,10 @@ long verif_enumerate(int shard, int nshards, int tier, verif::EnumReport &r) {
                 verif::set_current(cur.data(), cur.size());
                 bool heap = false; long calls = 0;
                 std::string why = run_all(d.enc, u, (unsigned)code, false, heap, nullptr, calls);
+                // extended entry points: every string of length <= 2 runs all of them; longer ones one group each (rotating), every third string
+                if (why.empty() && len <= 3) why = lean::cross_check(d.enc, u);
+                if (why.empty() && (len <= 2 || code % 3 == 0))
+                    why = run_ext(d.enc, u, (unsigned)code, len > 1 ? 1 : 0, len > 2 ? len - 2 : len - (len > 1 ? 1 : 0), false, len <= 2 ? ~0u : 1u << ((code / 3) & 7), 7u, heap, calls);
                 r.evaluations++;
                 bool malformed = false; for (const ref::Item &it : ref::decode(d.enc, u)) if (!it.ok) malformed = true;
                 if (len >= 2 && malformed) r.nontrivial++;
@@ -134,7 +172,55 @@ long verif_enumerate(int shard, int nshards, int tier, verif::EnumReport &r) {
             }
         }
     }
+    // Long inputs (deterministic grid, each point is an input of verif_case: first byte 0xFE, explicit length code 255): runs of one identical
+    // well-formed character of every width, of Latin-1 high bytes, and of garbage units, 256 Ki / 300 Ki / 320 Ki units and one off, last character cut or not.
+    {
+        std::vector<std::vector<uint8_t>> grid;
+        static const uint32_t tot_quick[] = {262143, 262144, 262145, 307200, 327680};
+        static const uint32_t tot_thorough[] = {4096, 65535, 65536, 65537, 131072, 262143, 262144, 262145, 307200, 327679, 327680, 327681, 524288, 1048576, 1048577};
+        auto point = [&](unsigned enc, std::vector<uint8_t> pattern_bytes, uint32_t total, bool pad_behind, unsigned cut) {
+            std::vector<uint8_t> b{0xFE, (uint8_t)enc};
+            b.insert(b.end(), pattern_bytes.begin(), pattern_bytes.end());
+            b.push_back(255); for (int k = 0; k < 4; k++) b.push_back((uint8_t)(total >> (8 * k)));
+            b.push_back(pad_behind ? 1 : 0); b.push_back((uint8_t)cut);
+            b.push_back((uint8_t)grid.size());       // route_sel
+            grid.push_back(b);
+        };
+        const size_t nt = tier ? sizeof tot_thorough / sizeof tot_thorough[0] : sizeof tot_quick / sizeof tot_quick[0];
+        for (size_t ti = 0; ti < nt; ti++) {
+            const uint32_t total = tier ? tot_thorough[ti] : tot_quick[ti];
+            const bool big = total > 600000;
+            // Latin-1: style 0 = one identical byte; table l1[] = {E9, FF, 80, A0, 41, 00, 7F, C3}
+            for (uint8_t li : {0, 1, 2}) { if (big && li) continue; point(ref::LATIN1, {0, li}, total, false, 0); if (ti % 2 == 0) point(ref::LATIN1, {0, li}, total, true, 0); }
+            if (!big) point(ref::LATIN1, {1, 1, 0, 4}, total, false, 0);                  // pattern E9 41
+            for (unsigned enc = 0; enc < 3; enc++) {
+                // style 0: one identical well-formed scalar from ugen::kLongScalars (0 E9, 2 20AC, 3 1F600, 8 10FFFF)
+                for (uint8_t ci : {0, 2, 3, 8}) { if (big && ci != 3) continue; point(enc, {0, ci}, total, false, 0); if (ti % 2 == 1) point(enc, {0, ci}, total, false, 1); }
+                // style 2: one identical class-alphabet unit (index into ugen::class_unit's table of that encoding): garbage runs
+                static const uint8_t g8[] = {3 /*80*/, 8 /*C2*/, 10 /*E0*/, 13 /*F0*/, 17 /*FF*/}, g16[] = {3 /*D800*/, 5 /*DC00*/, 8 /*FFFF*/}, g32[] = {2 /*D800*/, 7 /*110000*/, 9 /*FFFFFFFF*/};
+                const uint8_t *g = enc == 0 ? g8 : enc == 1 ? g16 : g32; const size_t ng = enc == 0 ? 5 : 3;
+                if (!big) for (size_t gi = 0; gi < ng; gi++) if ((gi + ti) % 2 == 0 || tier) point(enc, {2, g[gi]}, total, false, 0);
+            }
+        }
+        for (size_t gi = (size_t)shard; gi < grid.size(); gi += (size_t)nshards) {
+            const std::vector<uint8_t> &bytes = grid[gi];
+            verif::set_current(bytes.data(), bytes.size());
+            verif::Case cs; verif::Reader rd(bytes.data() + 1, bytes.size() - 1, cs);
+            ref::Enc from = (ref::Enc)(rd.u8() & 3);
+            const char *kind = "", *size_label = "";
+            Units u = ugen::long_units(rd, from, kind, size_label);
+            unsigned route_sel = rd.u8();
+            bool heap = false; long calls = 0;
+            std::string why = lean::all_from(from, u, route_sel, calls);
+            r.evaluations++; r.nontrivial++;
+            std::string desc = std::string("C03 ") + conv::enc_name(from) + " [" + kind + "] in=" + show_units(from, u);
+            if (!why.empty()) { r.failure = why; r.failing_case = desc; r.failing_bytes = bytes; return r.evaluations; }
+            if (r.want_sample() && gi % 41 == 7) r.samples.push_back(desc + " [enumerated grid]");
+        }
+    }
     if (shard == 0) {
+        r.exhausted.push_back(std::string("grid of long inputs: runs of one identical unit/character (Latin-1 E9 FF 80 and E9 41; U+00E9 U+20AC U+1F600 U+10FFFF in UTF-8/16/32; garbage units 80 C2 E0 F0 FF / D800 DC00 FFFF / D800 110000 FFFFFFFF), total ") +
+                              (tier ? "4 Ki .. 1 Mi units incl. 64 Ki, 256 Ki, 320 Ki, 512 Ki, 1 Mi and one off" : "256 Ki-1, 256 Ki, 256 Ki+1, 300 Ki, 320 Ki units") + ", filler in front or behind, last character whole or cut, every conversion reading that encoding x 3 modes");
         r.exhausted.push_back(std::string("all UTF-8 strings of length <= ") + (tier ? "5" : "4") + " over the 18-byte class alphabet 00 41 7F 80 90 A0 BF C0 C2 DF E0 ED EF F0 F4 F7 F8 FF, every conversion reading UTF-8 x 3 modes");
         r.exhausted.push_back(std::string("all UTF-16 strings of length <= ") + (tier ? "5" : "4") + " over {0041,D7FF,D800,DBFF,DC00,DFFF,E000,FFFF}; all UTF-32 strings of length <= " + (tier ? "4" : "3") + " over {0,41,D800,DFFF,FFFF,10000,10FFFF,110000,7FFFFFFF,FFFFFFFF}");
     }
